@@ -331,7 +331,9 @@ func c12TTests(c *Ctx, p *Prog) {
 			}
 			// every guard atom was consulted and is false on the success path
 			guardsFalse := 0
-			for k, v := range o.Assign {
+			for _, k := range o.AtomKeys() {
+				v := o.Assign[k]
+				_ = v
 				s := o.AtomSyms[k]
 				if s.Op == "binop" && s.Args[1].isConst() && !v {
 					guardsFalse++
@@ -627,7 +629,9 @@ func c12Dists(c *Ctx, p *Prog) {
 				continue
 			}
 			var zero, pos, neg *bool
-			for k, v := range o.Assign {
+			for _, k := range o.AtomKeys() {
+				v := o.Assign[k]
+				_ = v
 				s := o.AtomSyms[k]
 				vv := v
 				switch {
@@ -723,7 +727,9 @@ func c12Dists(c *Ctx, p *Prog) {
 			var interior, direct *bool
 			oob := false
 			gt0, lt1 := false, false
-			for k, v := range o.Assign {
+			for _, k := range o.AtomKeys() {
+				v := o.Assign[k]
+				_ = v
 				s := o.AtomSyms[k]
 				vv := v
 				str := s.String()
@@ -767,7 +773,9 @@ func c12Dists(c *Ctx, p *Prog) {
 			ok, d := ufEqual(o.Results[0], ref, pts, leaf)
 			c.Check(ok, R, key, site, "prefactor in the log domain; continued fraction in the form that converges (I_x(a,b) = 1 - I_{1-x}(b,a))", "incomplete beta: "+d)
 			// the switch point
-			for k, v := range o.Assign {
+			for _, k := range o.AtomKeys() {
+				v := o.Assign[k]
+				_ = v
 				s := o.AtomSyms[k]
 				if s.Op == "binop" && s.Tok == token.LSS && strings.Contains(s.String(), "/") && v == *direct {
 					okS, dS := ufEqual(s.Args[1], func(g func(string) *big.Rat) *big.Rat {
